@@ -16,8 +16,10 @@ RULE = ("a base point (THDM mass basis / MSSM on-shell) and one coincidence targ
         "rounding floor of its own terms) for at least one component; distinct = distinct (base point, target).")
 ASSUMPTIONS = [
     "finiteness is required of every component on every accepted model of every path",
-    "continuity: on admissible paths all inner values lie within 1 % of the component's magnitude of the chord "
-    "through the values at d = -1e-3 and d = +1e-3; the magnitude of a component that is a cancelling sum is the sum of "
+    "continuity: on admissible paths (odd and even part of the variation over the window each below 20 % of the "
+    "magnitude) all values lie within 1 % of the component's magnitude of the parabola through the values at "
+    "d = -1e-3, 0 and +1e-3 (a chord through the outer anchors alone reads the curvature of a path that approaches a "
+    "physical singularity, e.g. a stop about to become tachyonic, as a jump); the magnitude of a component that is a cancelling sum is the sum of "
     "|terms| it is built from (a kink of min(...) in the documented leading-log scale is continuous, but would be "
     "misread as a jump if measured against a sum that cancels to 2 %)",
     "a component whose magnitude is below 1e-9 of the sum of |terms| it is built from (exact SM limit, rounding "
@@ -72,10 +74,19 @@ def judge(values, floors, comps, norms=None):
         mag = max(mag, norms.get(c, 0.0))
         if abs(a1 - a0) > 0.2 * mag:
             continue
+        # smooth interpolant through the three anchors d = -1e-3, 0, +1e-3 (a parabola: a path that runs towards a
+        # genuine, physical singularity - e.g. a stop about to become tachyonic - is strongly curved on the scale of
+        # the window, and a chord through the two outer anchors alone reads that curvature as a jump); a wrong value
+        # at exactly d = 0 bends the parabola towards it and is exposed by the points next to it
+        v0 = vs[0.0]
+        odd, even = (a1 - a0) / 2.0, (a1 + a0) / 2.0 - v0
+        if abs(even) > 0.2 * mag:
+            continue
         nadm += 1
         worst = None
         for d, v in vs.items():
-            chord = a0 + (a1 - a0) * (d + 1e-3) / 2e-3
+            t = d / 1e-3
+            chord = v0 + odd * t + even * t * t
             dev = abs(v - chord) / mag
             if dev > 0.01 and (worst is None or dev > worst[1]):
                 worst = (d, dev, v, chord)
